@@ -55,7 +55,7 @@ def vfs_entry(url, kind, model):
     text = '\n'.join(A.jump_text(model)) + '\n'
     if kind == 'broken':
         text = 'probe(99)\nx = (1 +\n'
-    return {'url': url, 'kind': kind, 'model': model, 'text': text}
+    return {'url': url, 'kind': kind, 'model': model, 'text': text, 'cps': A.cps(text)}
 
 
 def family_case(ch, fx):
@@ -81,7 +81,7 @@ def run_case(main, inc, limit=80, globs=None, dbg=False, from_text=True):
         c['real_model'] = script
         c['model'] = A.amodel(script)
     for f in inc['vfs']:
-        if f['kind'] == 'text':
+        if f['kind'] == 'text' and not f.get('data'):
             f['model'] = A.amodel(realrun.bare_script.parse_script(f['text']))
     return realrun.observe(c)
 
@@ -145,12 +145,35 @@ def rand_tree(rnd):
                 stmts.append(inc)
             if rnd.random() < 0.3:
                 stmts.append({'k': 'expr', 'name': f'gv{rnd.randint(0, 3)}', 'e': num(rnd.randint(0, 9))})
+            if rnd.random() < 0.35:
+                # systemFetch resolves against the running script too (url | request object | array of those)
+                def sstr(t):
+                    return {'k': 'str', 'v': A.cps(t)}
+                refs = []
+                for _ in range(rnd.randint(1, 2)):
+                    dref = rnd.choice(['data.txt', 'sub/data.txt', '/abs/data.txt', 'https://o.example/d.json', 'missing/none.txt'])
+                    tgt = resolve(url, dref, False) if url else dref
+                    if 'missing/' not in dref and tgt not in vfs:
+                        vfs[tgt] = ('data', f'payload of {tgt}')
+                    refs.append(dref)
+                form = rnd.random()
+                call = lambda n, *a: {'k': 'call', 'name': n, 'noargs': False, 'args': list(a)}      # noqa: E731
+                if form < 0.4:
+                    arg = sstr(refs[0])
+                elif form < 0.6:
+                    arg = call('objectNew', sstr('url'), sstr(refs[0]))
+                elif form < 0.9:
+                    arg = call('arrayNew', *[sstr(r) if rnd.random() < 0.6 else call('objectNew', sstr('url'), sstr(r)) for r in refs])
+                else:
+                    arg = rnd.choice([num(5), call('objectNew', sstr('uri'), sstr(refs[0])), call('arrayNew', num(1))])
+                stmts.append(probe_s(rnd.randint(300, 399), call('systemFetch', arg)))
             if rnd.random() < 0.15:
                 stmts.append(RET)
             stmts.append(probe_s(rnd.randint(200, 299), {'k': 'var', 'v': f'gv{rnd.randint(0, 3)}'}))
         return stmts
     main = make_file(root, 0)
-    entries = [vfs_entry(A.cps(u), k, m) for u, (k, m) in vfs.items() if (k, m) is not None]
+    entries = [vfs_entry(A.cps(u), k, m) if k != 'data' else {'url': A.cps(u), 'kind': 'text', 'model': [], 'text': m, 'cps': A.cps(m), 'data': True}
+               for u, (k, m) in vfs.items() if (k, m) is not None]
     inc = {'vfs': entries, 'sys': A.cps(sys_prefix or ''), 'hasSys': sys_prefix is not None, 'base': A.cps(root),
            'hasBase': base_kind != 'none', 'hasFetch': rnd.random() < 0.95}
     return main, inc
